@@ -17,7 +17,74 @@ RC = "chalk_recursive::fixed_point::RecursiveContext::"
 SG = "chalk_recursive::fixed_point::search_graph::SearchGraph::"
 
 
+def scc_links(ck, facts, R):
+    """Shared by C10 / C05 / C01: the SCC-head test of the recursive solver is only meaningful if every solution that is taken
+    from, or computed through, the search graph reports the lowest node it depends on (its `links`) to its caller."""
+    ck.rule(R, "K3 (SCC bookkeeping): in RecursiveContext::solve_goal every path that returns a solution found in the search graph passes "
+               "`minimums.update_from(search_graph[dfn].links)` - whether or not the node is still on the stack (a popped node may still be "
+               "provisional) - or returns the mixed-cycle error value; the new-subgoal path stores subgoal_minimums into the node's links and "
+               "reports them with update_from; update_from takes the minimum; solve_new_subgoal returns the minimums its last iteration filled")
+    sg = need_body(ck, facts, R, RC + "solve_goal")
+    if not sg:
+        return
+    cfg = sg.cfg
+    upd = cfg.call_blocks("Minimums::update_from")
+    errv = cfg.call_blocks("error_value")
+    rets = set(cfg.return_blocks())
+    is_lookup = lambda tr: tr.get("of", {}).get("kind") == "call" and callee_matches(tr["of"]["call"], SG + "lookup")
+    some = cfg.variant_edges(is_lookup, ["Some"])
+    none = cfg.variant_edges(is_lookup, ["None"])
+    ck.floor(R, "solve_goal.lookup-edges", min(len(some), len(none)), 1)
+    for name, edges, through in (("graph-hit", some, upd + errv), ("new-subgoal", none, upd)):
+        bad = False
+        for e in edges:
+            reach = cfg.reachable(e[1], (), False, stop=set(through))
+            if rets & (reach - set(through)):
+                bad = True
+        inst = "solve_goal:%s:reports-links" % name
+        if edges and not bad:
+            ck.ok(R, inst, "every path to the return passes minimums.update_from%s" % (" or error_value()" if name == "graph-hit" else ""))
+        else:
+            ck.violation(R, inst, sg.where(),
+                         "a solution obtained on the %s path can be returned without reporting the links of the node it came from: the caller then "
+                         "looks like the head of its own SCC and its provisional result is promoted to the cache / kept across iterations" % name)
+    th = sg.thir
+    args = [c["args"][1] for c in calls(th, "Minimums::update_from")]
+    hit_ok = any(mentions_field(a, "links") for a in args)
+    new_ok = any(var_name(a) == "subgoal_minimums" for a in args)
+    st_ok = any(n.get("k") == "assign" and mentions_field(n["l"], "links") and var_name(n["r"]) == "subgoal_minimums" for n in walk(th))
+    if hit_ok and new_ok and st_ok:
+        ck.ok(R, "solve_goal:links-sources", "update_from(node.links) / node.links = subgoal_minimums / update_from(subgoal_minimums)")
+    else:
+        ck.violation(R, "solve_goal:links-sources", sg.where(), "links bookkeeping changed (hit=%s new=%s stored=%s)" % (hit_ok, new_ok, st_ok))
+    uf = need_body(ck, facts, R, "chalk_recursive::fixed_point::Minimums::update_from")
+    if uf:
+        if has_call(uf.thir, "min") and not has_call(uf.thir, "max") and any(n.get("k") == "assign" and mentions_field(n["l"], "positive") for n in walk(uf.thir)):
+            ck.ok(R, "Minimums::update_from", "positive = min(positive, other.positive)")
+        else:
+            ck.violation(R, "Minimums::update_from", uf.where(), "update_from must keep the minimum")
+    sn = need_body(ck, facts, R, RC + "solve_new_subgoal")
+    if sn:
+        th = sn.thir
+        it = [c for c in calls(th, "solve_iteration")]
+        passes = bool(it) and any(var_name(a) == "minimums" for a in it[0]["args"])
+        rets_m = [n for n in walk(th) if n.get("k") == "return" and n.get("e") is not None and "minimums" in expr_vars(n["e"])]
+        fresh = [st for st in walk(th) if st.get("k") == "let" and st["pat"].get("n") == "minimums" and has_call(st["init"], "Minimums::new")]
+        if passes and len(rets_m) == 2 and len(fresh) == 1:
+            ck.ok(R, "solve_new_subgoal:returns-iteration-minimums")
+        else:
+            ck.violation(R, "solve_new_subgoal:returns-iteration-minimums", sn.where(), "each iteration must collect minimums and both exits must return them")
+    pr = need_body(ck, facts, R, "chalk_recursive::fulfill::Fulfill::prove")
+    if pr:
+        c = [x for x in calls(pr.thir, "solve_goal")]
+        if c and any(var_name(a) == "minimums" for a in c[0]["args"]):
+            ck.ok(R, "Fulfill::prove:threads-minimums")
+        else:
+            ck.violation(R, "Fulfill::prove:threads-minimums", pr.where(), "sub-goal minimums must flow into the caller's minimums")
+
+
 def run(ck, facts, tier):
+    scc_links(ck, facts, "C10.SCC-LINKS")
     cg = CallGraph(facts, ["chalk_solve", "chalk_engine", "chalk_recursive", "chalk_integration", "chalk"])
     R = "C10.CACHE-WRITER"
     ck.rule(R, "K4: Cache::insert <- only SearchGraph::move_to_cache <- only RecursiveContext::solve_goal")
